@@ -56,6 +56,28 @@ fn encode_rmi(out: &mut Vec<u8>, data: &[u8]) {
     }
 }
 
+/// Returns `true` if the token at `idx` serializes to the same segment as its
+/// predecessor.  Such tokens are written only once.  The original position
+/// stored on a token without a source is not part of the serialized form and
+/// therefore not compared.
+fn is_duplicate_of_previous(sm: &SourceMap, idx: usize) -> bool {
+    let (prev, token) = match (
+        idx.checked_sub(1).and_then(|i| sm.get_token(i)),
+        sm.get_token(idx),
+    ) {
+        (Some(prev), Some(token)) => (prev, token),
+        _ => return false,
+    };
+    token.get_dst() == prev.get_dst()
+        && token.is_range() == prev.is_range()
+        && token.has_source() == prev.has_source()
+        && (!token.has_source()
+            || (token.get_src_id() == prev.get_src_id()
+                && token.get_src() == prev.get_src()
+                && token.has_name() == prev.has_name()
+                && (!token.has_name() || token.get_name_id() == prev.get_name_id())))
+}
+
 fn serialize_range_mappings(sm: &SourceMap) -> Option<String> {
     let mut buf = Vec::new();
     let mut prev_line = 0;
@@ -120,7 +142,7 @@ fn serialize_mappings(sm: &SourceMap) -> String {
                 prev_dst_line += 1;
             }
         } else if idx > 0 {
-            if Some(&token) == sm.get_token(idx - 1).as_ref() {
+            if is_duplicate_of_previous(sm, idx) {
                 continue;
             }
             rv.push(',');
